@@ -571,7 +571,7 @@ fn expected_probes(prop: &str) -> Vec<&'static str> {
     match prop {
         "C06" => vec!["publish_stored", "resume_with_stored", "resume_with_stored_pubrel", "c06_unmatched_ack", "erase_stored", "publish_stored_offline", "qos2_completed"],
         "C07" => vec!["qos2_dup_suppressed", "publish_delivered", "crash_restore"],
-        "C08" => vec!["c08_refusal_release", "c08_close_release", "c08_suback_release", "quiescence_reached"],
+        "C08" => vec!["c08_refusal_release", "c08_close_release", "c08_suback_release", "quiescence_reached", "c08_all_ids_in_use", "c08_exhaustion_reported"],
         "C12" => vec!["c12_inbound_exceeded", "qos1_completed", "qos2_error_pubrec", "resume_with_stored"],
         "C13" => vec!["c13_alias_only_sent", "c13_alias_bound", "c13_alias_rebound", "c13_invalid_alias_received", "c13_alias_resolved_on_receive", "c13_regulate_for_store"],
         "C14" => vec!["c14_oversize_received", "oversize_stored_dropped"],
